@@ -5,16 +5,20 @@ ID = "C19"
 HARNESS_PKG = "h_logsync"
 HARNESS_ARGS = ["c19"]
 COQ_IMPORTS = "From PV Require Import Model.Dedup Model.LogSync Lib.LogSyncShow Oracle.C20 Oracle.C19."
-COQ_SHARD = 25
+COQ_SHARD = 12
+HARNESS_PROCS = 8
+HARNESS_TIMEOUT = 1500
 TECHNIQUE = ("Coq proofs over the LogSync state-machine model: script (what a side sends is a function of its replica and the accepted Have, "
              "for every interleaving), sent_ops_exact (= rows above the peer's height per configured log), joint invariant of two machines "
              "over FIFO queues for every schedule (received_exact, termination via deadlock freedom + decreasing measure), converge "
-             "(heights after ingest = pointwise max); + differential correspondence with two real LogSync::run sessions over in-memory channels")
+             "(heights after ingest = pointwise max); + differential correspondence with two real LogSync::run sessions over in-memory channels "
+             "(unbounded, and futures::mpsc::channel(c) for small c), incl. ranges of several hundred entries")
 LEVEL_TEXT = ("Theorems C19_script / C19_script_interleaving_independent / C19_sent_ops_exact / C19_received_exact(_wf) / C19_converge / "
               "C19_termination are proved in Coq, closed under the global context, for all replicas (any authors/logs/heights/pruned "
               "prefixes/gaps), all configurations and all schedules of the joint model; no bound. The model is tied to "
               "p2panda-sync/src/protocols/log_sync.rs, p2panda-core/src/logs.rs and the SQLite log store on every run: random replica "
-              "pairs (overlapping prefixes, pruned logs, gaps, empty sides, differing configurations) are put into two SqliteStores, two real "
+              "pairs (overlapping prefixes, pruned logs, gaps, empty sides, differing configurations, ranges of 127..640 entries, transports "
+              "channel(c) with c = 1..16 where C21_outside_known guarantees termination) are put into two SqliteStores, two real "
               "sessions run against each other, and sink messages, OperationReceived events and heights after ingest are compared with the "
               "model's line; the oracle (expected_ops / grammar / pointwise-max heights) is evaluated on the implementation's observation.")
 LEVEL_NOTE = ("Hypotheses of the theorems: the store does not change during the session (C20 covers changes); row sizes > 0; operation ids "
@@ -28,7 +32,13 @@ ASSUMPTIONS = ["static stores during the session; positive row sizes; distinct o
 TRUSTED = ["modelled not verified: SQLite query semantics, CBOR decoding, ingest accepting received operations, tokio select! fairness"]
 RULE = ("quick: 160 random replica pairs drawn from a common universe of logs (1-4 authors x 1-2 logs, per side a window [lo..hi] of each log: "
         "absent / pruned prefix / behind / ahead / equal, 12% gaps; 20% of the cases with a different configuration on side B) + 8 fixed "
-        "boundary cases; thorough: 900 pairs with logs up to 32 rows. non-trivial = the session completed and at least one operation was sent")
+        "boundary cases; thorough: 900 pairs with logs up to 32 rows. + long ranges: one range to send of 127/128/129/130/256/257/290/380/500 "
+        "entries (around the multiples of 64/128/256 a batching sender would use), two long ranges of one author, both sides sending a long "
+        "range, a gap inside, logs behind a pruned prefix longer than 64/128 (13 in quick, ~110 in thorough up to 640 entries). + small transports: "
+        "the same observation over futures::mpsc::channel(c), c in {1,2,3,4,8,16}, only where C21_outside_known guarantees termination (c >= 1, one "
+        "side's operations + Done <= c): the small side at the boundary c-1 operations, the large side c+1 .. 65 operations, both orientations, "
+        "shared prefixes, two logs (39 in quick incl. 3 vs 40 over channel(8), 226 in thorough). "
+        "non-trivial = the session completed and at least one operation was sent")
 
 FIXED = [
     {"logs": [], "repa": [], "repb": []},
@@ -41,6 +51,267 @@ FIXED = [
     {"logs": [[0, [0, 1]], [2, [0]]], "repa": [[0, 0, [[0, 400], [1, 410]]], [0, 1, [[0, 420]]], [2, 0, [[0, 430]]]],
      "repb": [[0, 0, [[0, 400], [1, 410]]], [0, 1, [[0, 420]]], [2, 0, [[0, 430]]]]},
 ]
+
+
+# ------------------------------------------------------------------------------------------------
+# compact rendering of long logs (python glue only: the Coq side expands `rrun a l z s n` to the
+# explicit rows, the harness expands `lo-hi/size`)
+# ------------------------------------------------------------------------------------------------
+
+def runs(rows):
+    """[[seq, size], ...] -> [(lo, n, size)] maximal runs of consecutive seqs of one size."""
+    out = []
+    for s, z in rows:
+        if out and out[-1][0] + out[-1][1] == s and out[-1][2] == z:
+            out[-1][1] += 1
+        else:
+            out.append([s, 1, z])
+    return [tuple(r) for r in out]
+
+
+def g_concat(parts):
+    """parts: list of ("run", text) | ("one", text) -> Gallina list expression (List.app, no notation:
+    the driver evaluates inside string_scope where `++` is string append)."""
+    chunks, cur = [], []
+    for kind, t in parts:
+        if kind == "one":
+            cur.append(t)
+        else:
+            if cur:
+                chunks.append("[" + ";".join(cur) + "]")
+                cur = []
+            chunks.append(t)
+    if cur or not chunks:
+        chunks.append("[" + ";".join(cur) + "]")
+    e = chunks[-1]
+    for c in reversed(chunks[:-1]):
+        e = "(List.app %s %s)" % (c, e)
+    return e
+
+
+def g_rows(a, l, rows):
+    parts = []
+    for lo, n, z in runs(rows):
+        if n >= 4:
+            parts.append(("run", "(rrun %d %d %d %d %d)" % (a, l, z, lo, n)))
+        else:
+            parts.extend(("one", "mkrow %d %d %d" % (s, L.op_id(a, l, s), z)) for s in range(lo, lo + n))
+    return g_concat(parts)
+
+
+def g_replica(rep):
+    return "([" + ";".join("((%d,%d),%s)" % (a, l, g_rows(a, l, rows)) for a, l, rows in rep) + "])%N"
+
+
+def h_rep(rep):
+    out = []
+    for a, l, rows in rep:
+        if rows:
+            out.append("%d.%d:%s" % (a, l, ",".join(("%d-%d/%d" % (lo, lo + n - 1, z)) if n >= 3 else
+                                                    ",".join("%d/%d" % (s, z) for s in range(lo, lo + n))
+                                                    for lo, n, z in runs(rows))))
+    return ";".join(out) or "-"
+
+
+def op_tokens(text, strip_o):
+    """Harness operation tokens -> [(a, l, seq, size)] (None for a non-operation token when strip_o)."""
+    out = []
+    for t in text.split():
+        if strip_o:
+            if not t.startswith("O"):
+                out.append(t)
+                continue
+            t = t[1:]
+        key, z = t.split("/")
+        a, l, q = (int(x) for x in key.split("."))
+        out.append((a, l, q, int(z)))
+    return out
+
+
+def g_oplist(toks, run_fn, one_fmt, other):
+    """Group consecutive operation tuples of one log / one size / consecutive seqs into runs."""
+    parts, i = [], 0
+    while i < len(toks):
+        t = toks[i]
+        if not isinstance(t, tuple):
+            parts.append(("one", other(t)))
+            i += 1
+            continue
+        j = i + 1
+        while j < len(toks) and isinstance(toks[j], tuple) and toks[j][:2] == t[:2] and toks[j][3] == t[3] and toks[j][2] == t[2] + (j - i):
+            j += 1
+        if j - i >= 4:
+            parts.append(("run", "(%s %d %d %d %d %d)" % (run_fn, t[0], t[1], t[3], t[2], j - i)))
+        else:
+            parts.extend(("one", one_fmt % (x[0], x[1], x[2], L.op_id(x[0], x[1], x[2]), x[3])) for x in toks[i:j])
+        i = j
+    return "(" + g_concat(parts) + ")%N"
+
+
+def g_msgs(text):
+    def other(t):
+        if t.startswith("H["):
+            return "Have []"
+        if t.startswith("P"):
+            o, b = t[1:].split(":")
+            return "PreSync %d %d" % (int(o), int(b))
+        if t == "D":
+            return "Done"
+        raise ValueError(t)
+    return g_oplist(op_tokens(text, True), "msgrun", "Operation %d %d (mkrow %d %d %d)", other)
+
+
+def g_ops(text):
+    return g_oplist(op_tokens(text, False), "oprun", "(%d,%d,mkrow %d %d %d)", None)
+
+
+# ------------------------------------------------------------------------------------------------
+# long ranges (the sender may load a range in batches: 64 / 128 / 256 are the likely window sizes)
+# ------------------------------------------------------------------------------------------------
+
+def seg(lo, n, size=500, every=97):
+    """rows lo..lo+n-1; the size changes every `every` rows so that a shifted or skipped row also
+    shows in the byte totals of PreSync."""
+    return [[s, size + 10 * ((s // every) % 7)] for s in range(lo, lo + n)]
+
+
+def big(na=0, ka=0, loa=0, nb=0, kb=0, lob=0, extra=None, gap=None):
+    """Author 0 / log 0 is A's long log: A holds seqs loa..loa+na-1, B the first ka of them (the range
+    A sends has na-ka entries); author 1 / log 0 the same with the roles swapped."""
+    repa, repb = [], []
+    ra = seg(loa, na)
+    if gap is not None and ra:
+        ra = [r for r in ra if r[0] != loa + gap]
+    if ra:
+        repa.append([0, 0, ra])
+    if ka:
+        repb.append([0, 0, seg(loa, ka)])
+    rb = seg(lob, nb, 640, 61)
+    if kb:
+        repa.append([1, 0, seg(lob, kb, 640, 61)])
+    if rb:
+        repb.append([1, 0, rb])
+    logs = [[0, [0]], [1, [0]]]
+    for side, a, l, lo, n in (extra or []):
+        (repa if side == "a" else repb).append([a, l, seg(lo, n, 520, 53)])
+        for al in logs:
+            if al[0] == a and l not in al[1]:
+                al[1] = sorted(al[1] + [l])
+        if a not in [x[0] for x in logs]:
+            logs.append([a, [l]])
+    return {"logs": sorted(logs), "repa": sorted(repa), "repb": sorted(repb)}
+
+
+BIG_QUICK = [
+    big(na=127), big(na=128), big(na=129), big(na=130, ka=1), big(na=256), big(na=257, ka=1),
+    big(na=200, loa=80),                                  # pruned prefix longer than a window of 64, empty peer
+    big(na=300, ka=10, nb=150),                           # both sides send a long range
+    big(na=500, nb=3),
+    big(na=129, ka=0, extra=[("a", 0, 1, 0, 258), ("b", 0, 1, 0, 2)]),   # two long ranges of one author
+    big(na=386, ka=100, gap=250, nb=5, kb=2),
+    big(na=70, loa=130, nb=65, kb=0),                     # short logs behind a long pruned prefix
+]
+
+
+def big_cases(tier, rng):
+    for c in BIG_QUICK:
+        yield c
+    if tier == "quick":
+        n = rng.randint(129, 420)
+        yield big(na=n, ka=rng.randint(0, n - 129), loa=rng.choice([0, rng.randint(1, 200)]), nb=rng.randint(0, 40))
+        return
+    for n in (63, 64, 65, 66, 127, 128, 129, 130, 131, 191, 192, 193, 255, 256, 257, 258, 300, 383, 384, 385, 500, 512, 513, 640):
+        yield big(na=n)
+        yield big(nb=n, kb=rng.choice([1, 2, 5]))
+        yield big(na=n, loa=rng.choice([1, 63, 64, 65, 127, 128, 129, 200]), nb=rng.randint(0, 9))
+    for _ in range(30):
+        n, m = rng.randint(129, 500), rng.choice([0, 0, rng.randint(1, 300)])
+        yield big(na=n, ka=rng.randint(0, n - 1), loa=rng.choice([0, 0, rng.randint(1, 300)]),
+                  nb=m, kb=rng.randint(0, max(m - 1, 0)), lob=rng.choice([0, rng.randint(1, 150)]),
+                  gap=rng.choice([None, rng.randint(1, n - 2)]),
+                  extra=rng.choice([None, [("a", 0, 1, 0, rng.randint(100, 300))], [("b", 2, 0, rng.randint(0, 90), rng.randint(60, 200))]]))
+
+
+# ------------------------------------------------------------------------------------------------
+# small transports: `futures::mpsc::channel(c)`; only configurations in which C21_outside_known
+# guarantees termination: c >= 1 and one side's sync-phase messages (operations + Done) fit into c
+# ------------------------------------------------------------------------------------------------
+
+def sends(rep_x, rep_y, logs):
+    """Number of operations X sends to Y for one common configuration (python mirror of expected_ops,
+    used only to place generated cases; the model line is the reference)."""
+    dx, dy = L.rep_dict(rep_x), L.rep_dict(rep_y)
+    n = 0
+    for a, ls in logs:
+        y_has_author = any(dy.get((a, l)) for l in ls)
+        for l in ls:
+            rx, ry = dx.get((a, l), []), dy.get((a, l), [])
+            if not rx:
+                continue
+            if not y_has_author or not ry:
+                n += len(rx)
+            else:
+                hy = max(s for s, _ in ry)
+                n += len([1 for s, _ in rx if s > hy])
+    return n
+
+
+def msgs(case):
+    a = sends(case["repa"], case["repb"], case["logs"])
+    b = sends(case["repb"], case["repa"], case["logs"])
+    return (a + 1 if a else 0), (b + 1 if b else 0)
+
+
+def guaranteed(case):
+    c = case.get("cap")
+    if c is None:
+        return True
+    a, b = msgs(case)
+    return case.get("logsb") is None and c >= 1 and (a <= c or b <= c)
+
+
+def capped(c, small, large, small_is_a=True, shared_small=0, shared_large=0, two_logs=False):
+    """The small side owns author 0 (`small` operations the other lacks), the large side author 1."""
+    rs, rl = [], []
+    if small + shared_small:
+        rs.append([0, 0, seg(0, small + shared_small, 500, 5)])
+    if shared_small:
+        rl.append([0, 0, seg(0, shared_small, 500, 5)])
+    n1 = large + shared_large
+    if two_logs and large > 2:
+        h = large // 2
+        rl.append([1, 0, seg(0, h + shared_large, 600, 7)])
+        rl.append([1, 1, seg(0, large - h, 610, 7)])
+    elif n1:
+        rl.append([1, 0, seg(0, n1, 600, 7)])
+    if shared_large:
+        rs.append([1, 0, seg(0, shared_large, 600, 7)])
+    logs = [[0, [0]], [1, [0, 1] if two_logs else [0]]]
+    ra, rb = (rs, rl) if small_is_a else (rl, rs)
+    return {"logs": logs, "repa": sorted(ra), "repb": sorted(rb), "cap": c, "ms": 6000}
+
+
+def cap_cases(tier, rng):
+    yield capped(8, 3, 40)                     # the shape of the demonstration: 3 operations vs 40 over channel(8)
+    yield capped(8, 3, 40, small_is_a=False)
+    caps = (1, 2, 3, 4, 8, 16)
+    reps = 1 if tier == "quick" else 6
+    for _ in range(reps):
+        for c in caps:
+            k = c - 1                              # the largest small side that still fits: k operations + Done = c
+            yield capped(c, k, c + 1 + rng.randint(0, 3), small_is_a=rng.random() < 0.5)
+            yield capped(c, k, 40 + rng.randint(0, 25), small_is_a=True, shared_large=rng.choice([0, 2]))
+            yield capped(c, k, 3 * c + 7, small_is_a=False, shared_small=rng.choice([0, 1, 3]))
+            yield capped(c, rng.randint(0, k), 2 * c + rng.randint(2, 30), small_is_a=rng.random() < 0.5, two_logs=True)
+            yield capped(c, max(k - 1, 0), rng.randint(c + 1, 4 * c + 8), small_is_a=rng.random() < 0.5,
+                         shared_small=rng.choice([0, 2]), shared_large=rng.choice([0, 1, 4]), two_logs=rng.random() < 0.3)
+            yield capped(c, rng.randint(0, k), rng.randint(0, c - 1), small_is_a=rng.random() < 0.5)   # both fit
+    if tier != "quick":
+        for c in (1, 2, 4, 8):                     # a long range over a small transport
+            yield dict(big(na=129 + c, nb=c - 1), cap=c, ms=6000)
+            yield dict(big(nb=257, kb=1, na=c - 1), cap=c, ms=6000)
+    else:
+        yield dict(big(na=131, nb=3), cap=4, ms=6000)
 
 
 def window(rng, full, gaps=True):
@@ -60,8 +331,21 @@ def window(rng, full, gaps=True):
 def gen(tier, rng):
     for c in FIXED:
         yield c
+    # the long-range and small-transport cases are spread over the random ones (the long ones cost
+    # seconds each in coqtop; the driver shards consecutive cases)
+    bigs, special = list(big_cases(tier, rng)), list(cap_cases(tier, rng))
+    step = max(1, len(special) // max(len(bigs), 1))
+    for i, c in enumerate(bigs):
+        special.insert(min(i * (step + 1), len(special)), c)
+    for c in special:
+        assert guaranteed(c), c
     n, maxlen = (160, 7) if tier == "quick" else (900, 32)
-    for _ in range(n):
+    every = max(1, n // max(len(special), 1))
+    for k in range(n):
+        if k % every == 0 and special:
+            yield special.pop(0)
+            if len(special) > n - k:
+                yield special.pop(0)
         na = rng.randint(1, 4)
         authors = sorted(rng.sample(range(0, 6), na))
         logs, repa, repb = [], [], []
@@ -91,6 +375,8 @@ def gen(tier, rng):
                     lb.append([a, ls])
             case["logsb"] = lb
         yield case
+    for c in special:
+        yield c
 
 
 def logs_b(case):
@@ -98,14 +384,17 @@ def logs_b(case):
 
 
 def harness_line(case):
-    s = "logs=%s repa=%s repb=%s" % (L.h_logs(case["logs"]), L.h_rep(case["repa"]), L.h_rep(case["repb"]))
+    s = "logs=%s repa=%s repb=%s" % (L.h_logs(case["logs"]), h_rep(case["repa"]), h_rep(case["repb"]))
     if case.get("logsb") is not None:
         s += " logsb=%s" % L.h_logs(case["logsb"])
+    if case.get("cap") is not None:
+        s += " cap=%d ms=%d" % (case["cap"], case.get("ms", 6000))
     return s
 
 
 def coq_model(case):
-    return "model_line %s %s %s %s" % (L.g_logs(case["logs"]), L.g_logs(logs_b(case)), L.g_replica(case["repa"]), L.g_replica(case["repb"]))
+    cbuf = "None" if case.get("cap") is None else "(Some %d%%nat)" % case["cap"]
+    return "model_line_c %s %s %s %s %s" % (cbuf, L.g_logs(case["logs"]), L.g_logs(logs_b(case)), g_replica(case["repa"]), g_replica(case["repb"]))
 
 
 def fields(impl):
@@ -134,8 +423,8 @@ def coq_oracle(case, impl):
         return "false"
     same = "true" if logs_b(case) == case["logs"] else "false"
     return "check %s %s %s %s %s %s %s %s %s %s %s" % (
-        L.g_logs(case["logs"]), L.g_logs(logs_b(case)), L.g_replica(case["repa"]), L.g_replica(case["repb"]), same,
-        L.parse_msgs(f.get("A", "")), L.parse_msgs(f.get("B", "")), L.parse_ops(f.get("EA", "")), L.parse_ops(f.get("EB", "")),
+        L.g_logs(case["logs"]), L.g_logs(logs_b(case)), g_replica(case["repa"]), g_replica(case["repb"]), same,
+        g_msgs(f.get("A", "")), g_msgs(f.get("B", "")), g_ops(f.get("EA", "")), g_ops(f.get("EB", "")),
         g_h3(f.get("HA", "")), g_h3(f.get("HB", "")))
 
 
@@ -164,13 +453,21 @@ def shrink(case):
 
 
 def distribution(cases, impl):
-    d = {"both_send": 0, "one_sends": 0, "none_sends": 0, "pruned_logs": 0, "gaps": 0, "different_cfg": 0, "max_ops_one_side": 0}
+    d = {"both_send": 0, "one_sends": 0, "none_sends": 0, "pruned_logs": 0, "gaps": 0, "different_cfg": 0, "max_ops_one_side": 0,
+         "range_over_128": 0, "small_transport": 0, "small_transport_both_send": 0, "by_cap": {}}
     for i, c in enumerate(cases):
         f = fields(impl.get(i, "x"))
         na = len([t for t in f.get("A", "").split() if t.startswith("O")])
         nb = len([t for t in f.get("B", "").split() if t.startswith("O")])
         d["both_send" if na and nb else ("one_sends" if na or nb else "none_sends")] += 1
         d["max_ops_one_side"] = max(d["max_ops_one_side"], na, nb)
+        if max(na, nb) > 128:
+            d["range_over_128"] += 1
+        if c.get("cap") is not None:
+            d["small_transport"] += 1
+            d["by_cap"][str(c["cap"])] = d["by_cap"].get(str(c["cap"]), 0) + 1
+            if na and nb:
+                d["small_transport_both_send"] += 1
         if c.get("logsb") is not None:
             d["different_cfg"] += 1
         for side in ("repa", "repb"):
